@@ -321,6 +321,10 @@ class HModel:
         if opname in ('operator!=', 'operator==') and len(args) == 2 and all(isinstance(a, Rec) and a.kind == 'iterator' for a in args):
             same = args[0].f['valid'] == args[1].f['valid']
             return same if opname == 'operator==' else z3.Not(same)
+        if opname in ('operator*', 'operator->') and len(args) == 1 and isinstance(obj, Rec) and obj.kind == 'list_iter':
+            if obj.elem is None:
+                raise CheckerError('begin() of the list is dereferenced before anything was inserted: the older elements are opaque in this model')
+            return obj.elem if opname == 'operator*' else Ptr(obj.elem)
         h = self.hooks.get('operator')
         if h is not None:
             r = h(ex, opname, args, node, want_ref)
@@ -352,7 +356,33 @@ class HModel:
             r = h(ex, obj, name, args, node)
             if r is not NotImplemented:
                 return r
+        r = self.inline_own_method(ex, obj, name, args, node)
+        if r is not NotImplemented:
+            return r
         raise CheckerError(f'method {name} on {obj!r} at parsing.h:{line_of(node)} is not modelled')
+
+    def inline_own_method(self, ex, obj, name, args, node):
+        """a call of another method of the class under verification that has no contract of its own here (a private helper such as an index
+        computation): its body is executed in place, with `this` bound to the same object"""
+        if not isinstance(obj, Obj) or obj.kind not in ('matrix', 'chart', 'cell') or getattr(ex, '_inline_depth', 0) > 3:
+            return NotImplemented
+        try:
+            fn_ = self.ast.method(obj.kind, name)
+        except CheckerError:
+            return NotImplemented
+        params = [c['name'] for c in fn_.get('inner', []) if c.get('kind') == 'ParmVarDecl']
+        if len(params) != len(args):
+            return NotImplemented
+        env2 = {'this': Ptr(obj)}
+        env2.update(dict(zip(params, args)))
+        ex._inline_depth = getattr(ex, '_inline_depth', 0) + 1
+        try:
+            ex.run(body_of(fn_), env2)
+            return None
+        except _Return as r:
+            return r.v
+        finally:
+            ex._inline_depth -= 1
 
     # ---- the loop rule
     def for_loop(self, ex, st, env):
@@ -649,10 +679,17 @@ def argmax_spec(arr, a, n, ret):
 def argmax_records(ast):
     fn = instantiated(ast, 'argmax', 'float *')
     st = {}
-    ps, fls, ints = params_of(fn), locals_of_type(fn, 'float'), locals_of_type(fn, 'int')
-    if len(ps) != 2 or len(fls) != 1 or len(ints) != 2:
-        raise CheckerError(f'utils::argmax: expected 2 parameters, 1 float local and 2 int locals (found {len(ps)}, {len(fls)}, {len(ints)}): the sidecar invariant does not fit')
-    R = dict(frm=ps[0], to=ps[1], mv=fls[0], mi=ints[0], i=ints[1])
+    ps, ints = params_of(fn), locals_of_type(fn, 'int')
+    ptrs = [x for x in locals_of_type(fn, 'float *')]
+    fls = [x for x in locals_of_type(fn, 'float') if x not in ptrs]
+    # roles: the index that is returned, the other int (the position counter), the running maximum, the cursor (a local pointer if there is one, else the first parameter)
+    rets = [strip_casts(c) for r in _walk(body_of(fn)) if r.get('kind') == 'ReturnStmt' for c in r.get('inner', [])[:1]]
+    rets = {r['referencedDecl']['name'] for r in rets if r.get('kind') == 'DeclRefExpr'}
+    if len(ps) != 2 or len(fls) != 1 or len(ints) != 2 or len(ptrs) > 1 or len(rets) != 1 or not rets <= set(ints):
+        raise CheckerError(f'utils::argmax: expected 2 parameters, 1 float local, 2 int locals one of which is returned, at most one local pointer '
+                           f'(found {len(ps)}, {len(fls)}, {len(ints)}, {len(ptrs)}, returned {sorted(rets)}): the sidecar invariant does not fit')
+    mi = next(iter(rets))
+    R = dict(frm=ps[0], to=ps[1], mv=fls[0], mi=mi, i=[x for x in ints if x != mi][0], cur=ptrs[0] if ptrs else ps[0])
 
     def setup(ex, m):
         N = ex.fresh('buffer_size', I_)
@@ -667,7 +704,7 @@ def argmax_records(ast):
 
     def inv(env):
         vec, a, b = st['vec'], st['a'], st['b']
-        off, i, mi, mv = env[R['frm']].off, env[R['i']], env[R['mi']], env[R['mv']]
+        off, i, mi, mv = env[R['cur']].off, env[R['i']], env[R['mi']], env[R['mv']]
         k = _q()
         return z3.And(a <= off, off <= b, i == off - a,
                       z3.Implies(i == 0, z3.And(mi == -1, mv == z3.Real('float_lowest'))),
@@ -678,7 +715,7 @@ def argmax_records(ast):
     def post(ex, env, ret):
         vec, a, b = st['vec'], st['a'], st['b']
         return [('post', argmax_spec(vec.arr, a, b - a, ret), 'returns the (last) index of a maximum of [from, to), -1 for an empty range')]
-    loops = [LoopSpec(inv, variant=lambda env: st['b'] - env[R['frm']].off, what='max_val/max_idx describe the maximum of the elements seen so far')]
+    loops = [LoopSpec(inv, variant=lambda env: st['b'] - env[R['cur']].off, what='max_val/max_idx describe the maximum of the elements seen so far')]
     return verify_function(ast, fn, 'utils::argmax<float>', setup, post, loops, ('C01', 'C09'))
 
 
@@ -1010,6 +1047,18 @@ def chart_records(ast):
                 return sym_item(ex, 'old-front')
             if name == 'size':
                 return obj.f['n0'] + len(obj.new)
+            if name in ('begin', 'cbegin'):
+                it = Rec('list_iter', {})
+                it.lst, it.ver, it.elem = obj, len(obj.new), (obj.new[0] if obj.new else None)
+                return it
+            if name in ('insert', 'emplace') and len(args) == 2 and isinstance(args[0], Rec) and args[0].kind == 'list_iter':
+                # insertion before begin() = push_front; any other position is outside the model of the list (front + opaque older elements)
+                if args[0].lst is not obj or args[0].ver != len(obj.new):
+                    raise CheckerError('list::insert at a position other than the current begin()')
+                obj.new.insert(0, Item(dict(args[1].f), 'copy@front'))
+                it = Rec('list_iter', {})
+                it.lst, it.ver, it.elem = obj, len(obj.new), obj.new[0]
+                return it
         return NotImplemented
 
     # ---- cell::contains
